@@ -692,7 +692,9 @@ def cold_runs(ctx, shard):
                 if t.get("error"):
                     ctx.fail("C09:cold_start.thread_raises.%s" % t["error"].split(":")[0], "first use of %s in a fresh interpreter, preempted at step %d: %s" % (t["prog"], k, t["error"]), wit)
                 elif t.get("differs"):
-                    ctx.fail("C09:cold_start.%s_differs_from_solo" % t["differs"][0], "first use of %s in a fresh interpreter, preempted at step %d: %s differ" % (t["prog"], k, t["differs"]), wit)
+                    import re as _re
+
+                    ctx.fail("C09:cold_start.%s_differs_from_solo" % _re.sub(r"\d+", "<n>", t["differs"][0]), "first use of %s in a fresh interpreter, preempted at step %d: %s differ" % (t["prog"], k, t["differs"]), wit)
             if n0 is None:
                 n0 = r["per_thread"][0]
                 step = max(1, n0 // shard["points"])
